@@ -70,7 +70,7 @@ def collect(ctx) -> list[dict]:
     for k, c in enumerate(cfgs):
         decls = c["decls"]
         key = "map:" + ",".join(f"{d['b0']:02x}-{d['b1']:02x}/{d['lo']:04x}/{d['mask']:x}/{d['m0']}" for d in decls[:1])
-        for via in ("source", "api"):
+        for via in ("source", "api", "api_interleaved"):
             spec = {"decls": decls, "via": via}
             probes = sorted(c["probes"])
             tasks.append(("bus_point_segments", {"bus": spec, "addrs": probes}))
